@@ -444,3 +444,58 @@ func TestReproK26_FullSegmentEndingWithEmptyValue(t *testing.T) {
 		d2.Close()
 	}
 }
+
+// K27: List.LRange adds the list size to a negative start and slices with the result without checking
+// that it is still negative: an index counted from the tail that lies before the head (LRange(-5, 1) on
+// three elements) panicked with "slice bounds out of range" (Tx.LRange and Tx.LTrim reach it).
+func TestReproK27_LRangeStartBeforeHead(t *testing.T) {
+	dir := reproDir(t)
+	defer os.RemoveAll(dir)
+	d := reproOpen(t, dir, HintKeyValAndRAMIdxMode, 8*1024*1024, FileIO)
+	defer d.Close()
+	if err := d.Update(func(tx *Tx) error { return tx.RPush("b", []byte("k"), []byte("a"), []byte("b"), []byte("c")) }); err != nil {
+		t.Fatal(err)
+	}
+	err := d.View(func(tx *Tx) (err error) {
+		defer func() {
+			if r := recover(); r != nil {
+				err = fmt.Errorf("LRange(-5, 1) panicked: %v", r)
+			}
+		}()
+		items, err := tx.LRange("b", []byte("k"), -5, 1)
+		if err != nil {
+			return nil // an error is an acceptable answer
+		}
+		if len(items) != 2 || string(items[0]) != "a" || string(items[1]) != "b" {
+			return fmt.Errorf("LRange(-5, 1) = %q, want the range clamped to the head: [a b]", items)
+		}
+		return nil
+	})
+	if err != nil {
+		t.Fatal(err)
+	}
+}
+
+// K28 (not repaired, see known_findings.json): LRem with count == math.MinInt64 passes Tx.LRem's range test
+// (-count overflows and stays negative), is logged, and the commit-time applier panics.
+func TestReproK28_LRemMinInt(t *testing.T) {
+	dir := reproDir(t)
+	defer os.RemoveAll(dir)
+	d := reproOpen(t, dir, HintKeyValAndRAMIdxMode, 8*1024*1024, FileIO)
+	// no deferred Close: the panic leaves the write lock held and Close would block
+	if err := d.Update(func(tx *Tx) error { return tx.RPush("b", []byte("k"), []byte("a"), []byte("b"), []byte("a")) }); err != nil {
+		t.Fatal(err)
+	}
+	var callErr error
+	func() {
+		defer func() {
+			if r := recover(); r != nil {
+				t.Fatalf("LRem(MinInt64) accepted (err=%v) and then panicked: %v", callErr, r)
+			}
+		}()
+		_ = d.Update(func(tx *Tx) error {
+			_, callErr = tx.LRem("b", []byte("k"), -9223372036854775808, []byte("a"))
+			return callErr
+		})
+	}()
+}
